@@ -128,9 +128,9 @@ package coroutines
 //@ ensures err == nil ==> res.Kind == t_api.CreateCallback && res.CreateCallback != nil
 //@ ensures err == nil && r.CreateCallback.PromiseId == r.CreateCallback.RootPromiseId ==> res.CreateCallback.Status == t_api.StatusCallbackInvalidPromise
 //@ macro cbc_post() cb_post(res.CreateCallback.Status, res.CreateCallback.Promise, res.CreateCallback.Callback, sprintf("__resume:%s:%s", r.CreateCallback.RootPromiseId, r.CreateCallback.PromiseId), r.CreateCallback.PromiseId, r.CreateCallback.RootPromiseId, r.CreateCallback.Recv, "resume", r.CreateCallback.RootPromiseId, r.CreateCallback.PromiseId, r.CreateCallback.Timeout)
-//@ ensures err == nil && r.CreateCallback.PromiseId != r.CreateCallback.RootPromiseId && res.CreateCallback.Status != t_api.StatusOK ==> cbc_post()
-//@ ensures err == nil && r.CreateCallback.PromiseId != r.CreateCallback.RootPromiseId && res.CreateCallback.Status == t_api.StatusOK && res.CreateCallback.Promise.State != promise.Pending ==> cbc_post()
-//@ ensures err == nil && r.CreateCallback.PromiseId != r.CreateCallback.RootPromiseId && res.CreateCallback.Status == t_api.StatusOK && res.CreateCallback.Promise.State == promise.Pending ==> cbc_post()
+//@ ensures [C02 C05] err == nil && r.CreateCallback.PromiseId != r.CreateCallback.RootPromiseId && res.CreateCallback.Status != t_api.StatusOK ==> cbc_post()
+//@ ensures [C02 C05] err == nil && r.CreateCallback.PromiseId != r.CreateCallback.RootPromiseId && res.CreateCallback.Status == t_api.StatusOK && res.CreateCallback.Promise.State != promise.Pending ==> cbc_post()
+//@ ensures [C02 C05] err == nil && r.CreateCallback.PromiseId != r.CreateCallback.RootPromiseId && res.CreateCallback.Status == t_api.StatusOK && res.CreateCallback.Promise.State == promise.Pending ==> cbc_post()
 
 //@ func CreateSubscription
 //@ props C02 C05 C20
@@ -139,6 +139,6 @@ package coroutines
 //@ ensures (res != nil) != (err != nil)
 //@ ensures err == nil ==> res.Kind == t_api.CreateSubscription && res.CreateSubscription != nil
 //@ macro cbs_post() cb_post(res.CreateSubscription.Status, res.CreateSubscription.Promise, res.CreateSubscription.Callback, sprintf("__notify:%s:%s", r.CreateSubscription.PromiseId, r.CreateSubscription.Id), r.CreateSubscription.PromiseId, r.CreateSubscription.PromiseId, r.CreateSubscription.Recv, "notify", r.CreateSubscription.PromiseId, "", r.CreateSubscription.Timeout)
-//@ ensures err == nil && res.CreateSubscription.Status != t_api.StatusOK ==> cbs_post()
-//@ ensures err == nil && res.CreateSubscription.Status == t_api.StatusOK && res.CreateSubscription.Promise.State != promise.Pending ==> cbs_post()
-//@ ensures err == nil && res.CreateSubscription.Status == t_api.StatusOK && res.CreateSubscription.Promise.State == promise.Pending ==> cbs_post()
+//@ ensures [C02 C05] err == nil && res.CreateSubscription.Status != t_api.StatusOK ==> cbs_post()
+//@ ensures [C02 C05] err == nil && res.CreateSubscription.Status == t_api.StatusOK && res.CreateSubscription.Promise.State != promise.Pending ==> cbs_post()
+//@ ensures [C02 C05] err == nil && res.CreateSubscription.Status == t_api.StatusOK && res.CreateSubscription.Promise.State == promise.Pending ==> cbs_post()
